@@ -90,6 +90,7 @@ func (cs *CacheScen) setup(l *tledger) (CacheLike, CState) {
 		cfg.HasDef, cfg.Def = true, cs.Def
 	}
 	var c CacheLike
+	var reenter CacheLike // only set for re-entrant callbacks: a callback that references the cache keeps it alive forever
 	if cs.Callback {
 		cfg.Callback = func(k, v int) {
 			t := sched.Running()
@@ -97,15 +98,18 @@ func (cs *CacheScen) setup(l *tledger) (CacheLike, CState) {
 				t = sched.MaxThreads
 			}
 			l.per[t] = append(l.per[t], fmt.Sprintf("cb1:k%d=%d;", k, v))
-			if cs.CBReenter && c != nil && k != NKC-1 {
-				c.Get(k)
-				c.Set(NKC-1, 777, durNoExp)
-				c.Delete(NKC - 1)
-				c.Count()
+			if reenter != nil && k != NKC-1 {
+				reenter.Get(k)
+				reenter.Set(NKC-1, 777, durNoExp)
+				reenter.Delete(NKC - 1)
+				reenter.Count()
 			}
 		}
 	}
 	c = newCache(cfg)
+	if cs.CBReenter {
+		reenter = c
+	}
 	st := CState{Now: epochNs, Def: durNoExp}
 	if cs.Def > 0 {
 		st.Def = cs.Def
